@@ -61,7 +61,9 @@ class BaseGopherProtocol:
         """Normalize slashes in the selector.  Make sure it starts
         with a slash and does not end with one.  If it is a root directory
         request, make sure it is exactly '/'.  Returns result."""
-        if len(selector) and selector[-1] == "/":
+        if len(selector) and selector[-1] == "/" and selector[-2:-1] != "/":
+            # (a run of trailing slashes is left alone: the handlers refuse
+            # selectors containing "//", they do not expect a trailing slash)
             selector = selector[0:-1]
         if len(selector) == 0 or selector[0] != "/":
             selector = "/" + selector
